@@ -98,6 +98,39 @@ def rule_n1(F, regs):
     return r
 
 
+def rule_n4(F, regs):
+    from .c01 import roots
+    r = RuleResult("C17.N4", "a delegating built-in passes its parameters on in declaration order", floor=6)
+    for g in regs:
+        b = F.body(g["body"]) if g["body"] else None
+        if b is None or not b.hir:
+            continue
+        params = [p.get("name") for p in b.hir["params"]]
+        if len(params) < 3:
+            continue
+        ld = hir.LocalDefs(b.hir)
+        l0 = b.hir["params"][0].get("local")
+        for c in hir.nodes(b.hir["value"], "mcall"):
+            rc = hir.peel_refs(c["recv"])
+            while rc.get("k") == "field":
+                rc = hir.peel_refs(rc["e"])
+            if not (rc.get("k") == "path" and hir.res_local(rc) == l0):
+                continue
+            if c["m"] != g["name"] and not (g["name"] in ("pow",) and c["m"] == "powf"):
+                continue
+            seq = []
+            for a in c["args"]:
+                rs = roots(ld, a) & set(params[1:])
+                if len(rs) == 1:
+                    seq.append(params.index(list(rs)[0]))
+            key = "%s.%s" % (g["self_ty"], g["name"])
+            r.inst(key, {"builtin": key, "params": params[1:], "passed_positions": seq})
+            if seq != sorted(seq) or len(set(seq)) != len(seq):
+                r.bad("builtin", key + " argument order", relfile(b.file), c["line"],
+                      "`%s` passes its parameters to %s in the order %s (declared %s): e.g. replace(from, to) / slice(start, end) with swapped arguments" % (g["name"], c["m"], [params[i] for i in seq], params[1:]))
+    return r
+
+
 LINE_PRIMS = ("core::str::<impl str>::lines", "core::str::<impl str>::match_indices", "core::str::<impl str>::split_terminator",
               "core::str::<impl str>::split", "core::str::<impl str>::split_inclusive")
 CHAR_PRIMS = ("core::str::<impl str>::chars", "core::str::<impl str>::char_indices")
@@ -188,4 +221,4 @@ def rule_n3(F, regs):
 def rules(ctx):
     F = ctx["F"]
     regs = registrations(F)
-    return [rule_n1(F, regs), rule_n2(F), rule_n3(F, regs)]
+    return [rule_n1(F, regs), rule_n2(F), rule_n3(F, regs), rule_n4(F, regs)]
